@@ -318,6 +318,18 @@ def step (st : St) (toks : List String) : St × String :=
     | .error e => (st, fmtErr e)
     | .ok g =>
       (st, s!"ok insts={";".intercalate (g.insts.map fmtInst)} adj={fmtAssoc g.adj false} deps={fmtAssoc g.deps true}")
+  | ["exp.tables"] =>
+    -- the tables `_stage` leaves behind, keys and members in sorted order
+    let spec : Spec := { root := st.root, hashWs := st.hash, rlimit := st.rlimit, params := st.params,
+                         steps := st.steps, md5 := st.md5 }
+    match stageSS spec id with
+    | .error e => (st, fmtErr e)
+    | .ok s =>
+      let byKey (l : List (List Char × List (List Char))) :=
+        fmtAssoc ((sortDedup (l.map (·.1))).map fun k => (k, getAssoc l k)) true
+      let ws := ";".intercalate ((sortDedup (s.workspaces.map (·.1))).map fun k =>
+        s!"{hex k}:{hex (lookup s.workspaces k)}")
+      (st, s!"ok used={byKey s.used} combos={byKey s.combos} hub={byKey s.hub} depends={byKey s.depends} ws={ws}")
   | "subst.env" :: rest =>
     -- `StudyEnvironment.apply_environment` on an environment given group by group
     let e : Env.Env := { labels := pairs (kvOf rest "labels"), deps := pairs (kvOf rest "deps"),
